@@ -96,6 +96,19 @@ class Typed2(pg.Object):
   lf: T.List(T.Int().freeze(1), max_size=3) = []
 
 
+class Bounds(pg.Object):
+  """Numeric fields whose bounds sit on boundary values (zero of either sign
+  and type, equal min and max); mirrored by gen/templates.CLASS_SPECS."""
+  z: T.Float(min_value=0.0) = 0.0
+  nz: T.Float(min_value=-0.0, max_value=0.0) = 0.0
+  m: T.Float(max_value=0) = 0.0
+  zi: T.Float(min_value=0, max_value=1.0) = 0.0
+  neg: T.Float(min_value=-1.0, max_value=-0.0) = -0.5
+  i0: T.Int(min_value=0, max_value=0) = 0
+  ip: T.Int(min_value=0) = 0
+  lz: T.List(T.Float(min_value=0.0, max_value=1.0), max_size=3) = []
+
+
 class Required(pg.Object):
   """Object with required fields (can be partial)."""
   r: T.Int()
